@@ -1973,24 +1973,34 @@ fn node_level_probe(rng: &mut Rng, r: &mut Report, cx: &Ctx) {
     };
     let mut log: Vec<Value> = vec![];
     let mut uniq = rng.next_u64() >> 16;
-    let mut add = |w: &World, rng: &mut Rng, mode: AttMode| -> Result<Result<(), String>, String> {
+    // blocks connected by this probe, with the filter header of their predecessor
+    let mut chain: Vec<(Block, FilterHeader)> = vec![];
+    // the next block on the current tip, with its proof under the given attestation mode
+    let mut next_block = |w: &World, rng: &mut Rng, mode: AttMode| -> (Block, FilterHeader, TxoProof) {
         uniq += 1;
-        let u = uniq;
+        let tracker = w.node.get_tracker();
+        let tip = tracker.tip().clone();
+        let newh = tracker.height() + 1;
+        let block = make_block(tip.0.block_hash(), tip.0.bits, tip.0.time + 600, true, vec![coinbase(newh, uniq)], rng.next_u64() as u32);
+        let fh = true_fh(&block, &tip.1);
+        let atts = att_set(rng, secp, &oracles, mode, block.block_hash(), newh, fh);
+        let (txid_w, fwd) = tracker.get_all_forward_watches();
+        let proof = manual_filter_proof(atts, &block, &txid_w, &fwd);
+        (block, tip.1, proof)
+    };
+    let add_direct = |w: &World, block: &Block, proof: TxoProof| -> Result<Result<(), String>, String> {
         report::catch(|| {
             w.request(|node| {
                 let mut tracker = node.get_tracker();
-                let tip = tracker.tip().clone();
-                let newh = tracker.height() + 1;
-                let block = make_block(tip.0.block_hash(), tip.0.bits, tip.0.time + 600, true, vec![coinbase(newh, u)], rng.next_u64() as u32);
-                let fh = true_fh(&block, &tip.1);
-                let atts = att_set(rng, secp, &oracles, mode, block.block_hash(), newh, fh);
-                let (txid_w, fwd) = tracker.get_all_forward_watches();
-                let proof = manual_filter_proof(atts, &block, &txid_w, &fwd);
                 tracker.add_block(block.header, proof).map_err(|e| format!("{:?}", e))?;
                 node.get_persister().update_tracker(&node.get_id(), &tracker).map_err(|e| format!("persist: {:?}", e))
             })
             .0
         })
+    };
+    let tracker_view = |w: &World| -> (String, u32, Vec<String>) {
+        let t = w.node.get_tracker();
+        (t.tip().0.block_hash().to_string(), t.height(), t.headers().iter().map(|h| format!("{}/{}", h.0.block_hash(), h.1)).collect())
     };
     let detail = |log: &Vec<Value>, what: Value| json!({"seed": cx.seed, "shard": cx.shard, "history": cx.hist, "n_trusted_oracles": n, "node_level_log": log, "what": what});
     let bad_modes = |n: usize| -> Vec<AttMode> {
@@ -2004,19 +2014,22 @@ fn node_level_probe(rng: &mut Rng, r: &mut Report, cx: &Ctx) {
     for round in 0..=rounds {
         // valid blocks first (the very first block on the filter-header-less genesis tip is not proof-checked)
         for _ in 0..1 + rng.usize(3) {
-            let res = add(&w, rng, AttMode::Valid);
+            let (block, prev_fh, proof) = next_block(&w, rng, AttMode::Valid);
+            let res = add_direct(&w, &block, proof);
             log.push(json!(["add valid", format!("{:?}", res)]));
             r.count("node_level.valid_blocks");
             if !matches!(res, Ok(Ok(()))) {
                 r.violation(if round == 0 { "tracker:node-level:valid-block-refused" } else { "tracker:node-level:valid-block-refused-after-restart" }, detail(&log, json!({"result": format!("{:?}", res)})));
                 return;
             }
+            chain.push((block, prev_fh));
         }
         let tip_fh_zero = is_zero_fh(&w.node.get_tracker().tip().1);
         if !tip_fh_zero {
             let mode = *rng.pick(&bad_modes(n));
             let before = w.node.get_tracker().tip().0.block_hash();
-            let res = add(&w, rng, mode);
+            let (block, _, proof) = next_block(&w, rng, mode);
+            let res = add_direct(&w, &block, proof);
             log.push(json!([format!("add {:?}", mode), format!("{:?}", res)]));
             r.count(if round == 0 { "node_level.defective_blocks_before_restart" } else { "node_level.defective_blocks_after_restart" });
             r.distinct_hash(vls_verif::rng::fnv_str(&format!("node-level:{}:{:?}:{}:{}", n, mode, round.min(1), w.store.is_cloud())));
@@ -2027,9 +2040,80 @@ fn node_level_probe(rng: &mut Rng, r: &mut Report, cx: &Ctx) {
                 return;
             }
         }
+        // a valid block through the protocol handler while the store is unavailable for one write: the
+        // daemon may die (and restart from the store) or refuse; a refusal must leave the tip where it was
+        if !w.store.is_cloud() && rng.chance(1, 2) {
+            let before = tracker_view(&w);
+            let (block, prev_fh, proof) = next_block(&w, rng, AttMode::Valid);
+            let node = w.node.clone();
+            let handler = report::catch(|| {
+                use vls_protocol::model::Bip32KeyVersion;
+                use vls_protocol::msgs::{self, Message};
+                use vls_protocol_signer::approver::PositiveApprover;
+                use vls_protocol_signer::handler::{Handler, InitHandler, RootHandler};
+                let mut init = InitHandler::new(0, node.clone(), Arc::new(PositiveApprover()), 6);
+                init.handle(Message::HsmdInit(msgs::HsmdInit {
+                    key_version: Bip32KeyVersion { pubkey_version: 0x043587CF, privkey_version: 0x04358394 },
+                    chain_params: BlockHash::all_zeros(),
+                    encryption_key: None,
+                    dev_privkey: None,
+                    dev_bip32_seed: None,
+                    dev_channel_secrets: None,
+                    dev_channel_secrets_shaseed: None,
+                    hsm_wire_min_version: 2,
+                    hsm_wire_max_version: 6,
+                }))
+                .map_err(|e| format!("{:?}", e))?;
+                let root: RootHandler = init.into();
+                Ok::<_, String>(root)
+            });
+            if let Ok(Ok(root)) = handler {
+                use vls_protocol::msgs::{self, Message};
+                use vls_protocol::serde_bolt::Octets;
+                use vls_protocol_signer::handler::Handler;
+                let msg = Message::AddBlock(msgs::AddBlock { header: Octets(serialize(&block.header)), unspent_proof: Some(msgs::DebugTxoProof(proof)) });
+                w.store.arm_faults(0, 1);
+                let res = report::catch(|| root.handle(msg).map(|reply| reply.as_any().downcast_ref::<msgs::AddBlockReply>().is_some()).map_err(|e| format!("{:?}", e)));
+                let fired = w.store.disarm_faults();
+                r.count("node_level.handler_add_block_with_storage_failure");
+                log.push(json!(["AddBlock via handler, store unavailable for one write", format!("{:?}", res).chars().take(120).collect::<String>(), fired]));
+                match res {
+                    Err(_) => {
+                        // the daemon died: it comes back from the store, which the failed write did not change
+                        r.count("node_level.storage_failure.daemon_died");
+                        drop(root);
+                        match report::catch(|| w.restart()) {
+                            Ok(Ok(())) => {}
+                            other => {
+                                r.violation("tracker:node-level:restart-failed", detail(&log, json!({"result": format!("{:?}", other)})));
+                                return;
+                            }
+                        }
+                        let after = tracker_view(&w);
+                        if after != before {
+                            r.violation("tracker:node-level:tracker-differs-after-failed-write-and-restart", detail(&log, json!({"before": before, "after": after})));
+                            return;
+                        }
+                    }
+                    Ok(Ok(true)) => {
+                        r.count("node_level.storage_failure.block_accepted");
+                        chain.push((block, prev_fh));
+                    }
+                    Ok(Ok(false)) | Ok(Err(_)) => {
+                        r.count("node_level.storage_failure.block_refused");
+                        let after = tracker_view(&w);
+                        if after != before {
+                            r.violation("tracker:node-level:refused-block-changed-the-tracker:after-storage-failure", detail(&log, json!({"before": before, "after": after})));
+                            return;
+                        }
+                    }
+                }
+            }
+        }
         if round == rounds {
             break;
         }
+        let before_restart = tracker_view(&w);
         match report::catch(|| w.restart()) {
             Ok(Ok(())) => {}
             other => {
@@ -2043,6 +2127,43 @@ fn node_level_probe(rng: &mut Rng, r: &mut Report, cx: &Ctx) {
         if have != configured {
             r.violation("tracker:node-level:trusted-oracle-set-changed-by-restart", detail(&log, json!({"configured": configured.iter().map(|k| k.to_string()).collect::<Vec<_>>(), "after_restart": have.iter().map(|k| k.to_string()).collect::<Vec<_>>() })));
             return;
+        }
+        let after_restart = tracker_view(&w);
+        if after_restart != before_restart {
+            let what = if after_restart.0 != before_restart.0 { "tip" } else if after_restart.1 != before_restart.1 { "height" } else { "remembered-headers" };
+            r.violation(&format!("tracker:node-level:restart-changed-the-tracker:{}", what), detail(&log, json!({"before": before_restart, "after": after_restart})));
+            return;
+        }
+        // after the restart a correct removal of the tip (right previous headers, valid proof) is accepted,
+        // and the block can be connected again
+        if chain.len() >= 2 && rng.chance(2, 3) {
+            let (tip_block, tip_prev_fh) = chain[chain.len() - 1].clone();
+            let (prev_block, prev_prev_fh) = chain[chain.len() - 2].clone();
+            let tracker = w.node.get_tracker();
+            if tracker.tip().0.block_hash() == tip_block.block_hash() {
+                let height = tracker.height();
+                let fh = true_fh(&tip_block, &tip_prev_fh);
+                let prev_fh_of_tip = true_fh(&prev_block, &prev_prev_fh);
+                let (txid_w, rev) = tracker.get_all_reverse_watches();
+                drop(tracker);
+                let atts = att_set(rng, secp, &oracles, AttMode::Valid, tip_block.block_hash(), height, fh);
+                let proof = manual_filter_proof(atts, &tip_block, &txid_w, &rev);
+                let res = report::catch(|| {
+                    w.request(|node| {
+                        let mut tracker = node.get_tracker();
+                        tracker.remove_block(proof, Headers(prev_block.header, prev_fh_of_tip)).map_err(|e| format!("{:?}", e))?;
+                        node.get_persister().update_tracker(&node.get_id(), &tracker).map_err(|e| format!("persist: {:?}", e))
+                    })
+                    .0
+                });
+                log.push(json!(["remove tip after restart", format!("{:?}", res)]));
+                r.count("node_level.removals_after_restart");
+                if !matches!(res, Ok(Ok(()))) {
+                    r.violation("tracker:node-level:valid-removal-refused-after-restart", detail(&log, json!({"result": format!("{:?}", res)})));
+                    return;
+                }
+                chain.pop();
+            }
         }
     }
     r.count("node_level.probes_completed");
